@@ -27,6 +27,10 @@ const (
 	ERR   Outcome = "err"   // error reply, not applied
 	STALL Outcome = "stall" // no reply until well past the client's deadline, not applied
 	DROP  Outcome = "drop"  // connection closed without a reply, not applied
+	// SLOW: the call is applied, but only after 1.5 r/w deadlines: the controller has
+	// given up on it by then; a client that sent the request a second time gets it
+	// applied twice
+	SLOW Outcome = "slow"
 	// DROPWAIT: like DROP, and the controller's r/w deadline is long enough (4 s) for
 	// its rpc client to get to the in-flight request itself: the client waits 2 s after
 	// a transport error before it ends the requests that were in flight
@@ -72,6 +76,7 @@ type Node struct {
 	restDrop  map[string]int       // request pattern ("METHOD path?action" substring) -> number of upcoming product-originated requests whose connection is closed without an answer
 	pingFail  bool
 	StallFor  time.Duration
+	SlowFor   time.Duration
 	Log       []DPCall
 	RestLog   []string
 	conns     []net.Conn
@@ -96,7 +101,7 @@ func sum64(b []byte) uint64 {
 // NewNode creates the directory, the replica (size bytes) and starts the listeners.
 func NewNode(name, ip, dir string, size int64, fast bool) (*Node, error) {
 	n := &Node{Name: name, IP: ip, Addr: "tcp://" + ip + ":9502", Dir: dir, Fast: fast,
-		next: map[string][]Outcome{}, restFail: map[string]int{}, StallFor: 1500 * time.Millisecond}
+		next: map[string][]Outcome{}, restFail: map[string]int{}, StallFor: 1500 * time.Millisecond, SlowFor: 450 * time.Millisecond}
 	if err := os.MkdirAll(dir, 0700); err != nil {
 		return nil, err
 	}
@@ -630,6 +635,10 @@ func (d *faultDP) fault(kind string, o Outcome) error {
 		d.n.markSlow()
 		time.Sleep(d.n.StallFor)
 		return fmt.Errorf("injected %s stall on %s", kind, d.n.Name)
+	case SLOW:
+		d.n.markSlow()
+		time.Sleep(d.n.SlowFor)
+		return nil
 	case DROP, DROPWAIT:
 		d.n.markSlow()
 		d.conn.Close()
